@@ -36,7 +36,8 @@ ID = "C14"
 LEVEL = "fault_enumeration"
 RULE = ("Hypothesis-generated histories (outages with refusals/latency, console state changes while down, group status "
         "frames at generated gaps, long silences) on an initialised client; non-trivial: an outage during which the console "
-        "state changed, or an AT4 silence longer than 300 s; distinct by history")
+        "state changed, or an AT4 silence longer than 300 s; distinct by history"
+        " Also: histories that start after shutdown() + init() on the same object, connections that die while the refresh is being written.")
 ASSUMPTIONS = ["reconnection attempts are refused k times then accepted; answers to refresh requests are sent by the console "
                "with a generated delay", "exact coincidences of a poll deadline with another event are discarded"]
 
